@@ -94,7 +94,7 @@ def check(ctx: Ctx):
     from .. import aliasrules
     nb = aliasrules.check_no_alias(ctx, "R-DISTINCT", [f for mn in (GC, IS, SC) for f in repo.all_functions(repo.module(mn))])
     if nb < 8:
-        raise AnalysisError(f"R-DISTINCT: only {nb} container constructions seen in the generator modules")
+        ctx.defer(f"R-DISTINCT: only {nb} container constructions seen in the generator modules")
 
     # ---- graph colouring ------------------------------------------------------
     gen = repo.func(GC, "generate")
